@@ -67,6 +67,20 @@ CHECKS = {
              'discipline. Lifespan: handler failure swept over every handler; order/events/termination checked.',
         note='Stacks are sampled (<=4 components, <=3 hooks); within a sampled stack the single-site sweep is complete up '
              'to the sweep cap. Hooks never set resp.complete; handlers return or raise HTTPError/HTTPStatus only.'),
+    'C04': dict(
+        level='fault_enumeration', ref='DESIGN.md section 4 (C04)',
+        technique=TECH + 'per sampled (exception hierarchy, handler registration history, stack) the raise is injected at '
+                  'every call site and in the body-rendering window in turn; handler identity, reset-before-handler, '
+                  'escape and rendering oracles; ASGI under the simulated loop',
+        text='Fault enumeration over raise sites: generated exception class hierarchies (single/multiple inheritance, rooted '
+             'in Exception/HTTPError/HTTPStatus), registration histories (classes, tuples, re-registrations, defaults '
+             'overridden), seeded unicode error fields, Accept headers, XML on/off, custom media type; the exception is raised '
+             'at each middleware method, hook, responder and in the rendering window (failing media serializer, raising '
+             'render_body) in its own run; handlers may raise HTTPError/HTTPStatus. Oracle: MRO/latest-registration model of '
+             'the chosen handler (recorded identity), text/data/media reset at handler entry, nothing escapes, status/'
+             'headers/Vary and body decoding (JSON/XML/custom) to exactly to_dict().',
+        note='Accept headers come from a small unambiguous grammar (general negotiation is C11, not claimed); strings are '
+             'restricted to XML-representable characters; handlers raising non-HTTP exceptions are not generated.'),
 }
 
 NOT_YET = {p: 'claimed in DESIGN.md; check under construction in this round (not yet registered)' for p in
